@@ -20,6 +20,9 @@ structure Facts where
   envParseBase0 : Bool
   envEmptyIsDefault : Bool
   envTooSmallIsLeMin : Bool
+  -- C04 / C16
+  encodeCapsAtLen : Bool
+  encodeChecksLen : Bool
   -- C15
   recursionDecrements : Bool
   recursiveCalls : Nat
@@ -60,6 +63,9 @@ def lockDiscipline (F : Facts) : Bool :=
   F.createLocksRechecksBuildsPublishes && F.getIsReadOnly && F.setCopiesThenStores &&
   F.cachesConfinedToLockedPath && F.publishOnlyInCreate && F.buildPathCallersOK &&
   F.scratchPooledAndCleared
+
+/-- C04: `Append(buf[:0:len(buf)], v)` and `len(ret) > len(buf)` is the error test -/
+def bufferContract (F : Facts) : Bool := F.encodeCapsAtLen && F.encodeChecksLen
 
 def steadyStateAllocFree (F : Facts) : Bool := F.escapeAnalysisRan && F.hotPathHeapSites == 0
 end Facts
